@@ -375,6 +375,13 @@ class Engine(
                 # operands are only Selects if they need to be subqueries.
                 new_lhs, new_lhs_needs_projection = lhs.strip()
                 new_rhs, new_rhs_needs_projection = rhs.strip()
+                # A projection can only be moved after the join if the columns
+                # it drops cannot be confused with columns of the other
+                # operand; otherwise that operand has to remain a subquery.
+                if new_lhs_needs_projection and not (new_lhs.columns - lhs.columns).isdisjoint(new_rhs.columns):
+                    new_lhs, new_lhs_needs_projection = lhs, False
+                if new_rhs_needs_projection and not (new_rhs.columns - rhs.columns).isdisjoint(new_lhs.columns):
+                    new_rhs, new_rhs_needs_projection = rhs, False
                 if new_lhs_needs_projection or new_rhs_needs_projection:
                     projection = Projection(frozenset(lhs.columns | rhs.columns))
                 else:
